@@ -265,6 +265,51 @@ func (w *world) oracleVis(nss []string) string {
 	return ""
 }
 
+// countShapes: how often the generated cases contain the rarer input shapes (evidence counters).
+func countShapes(t []string) {
+	switch {
+	case t[0] == "sc" && len(t) == 6:
+		for _, l := range decEgress(t[5]) {
+			switch {
+			case strings.HasPrefix(l.bind, "unix://"):
+				cnt("input-egress-listener-unix-socket")
+			case l.port != 0 && (l.proto == "TCP" || l.proto == "TLS"):
+				cnt("input-egress-listener-tcp-tls-port")
+			case l.port != 0 && l.proto == "HTTP_PROXY":
+				cnt("input-egress-listener-http-proxy")
+			case l.port != 0:
+				cnt("input-egress-listener-http-port")
+			}
+		}
+	case t[0] == "vs" && len(t) == 10:
+		if strings.Contains(t[8], "^@") {
+			cnt("input-delegating-route-with-root-match")
+		} else if strings.Contains(t[8], "@") {
+			cnt("input-delegating-route-without-match")
+		}
+		for _, g := range decItems(t[6], ",") {
+			if i := strings.Index(g, "/"); i > 0 && g[:i] != "." {
+				cnt("input-cross-namespace-gateway-reference")
+			}
+		}
+		for _, h := range decItems(t[4], ",") {
+			if !strings.Contains(h, ".") && h != "*" {
+				cnt("input-short-virtualservice-host")
+			}
+		}
+	case t[0] == "svc" && len(t) >= 8 && t[7] == "-":
+		cnt("input-service-without-ports")
+	case t[0] == "gw" && len(t) == 3:
+		cnt("input-waypoint-proxy")
+	case t[0] == "mesh" && len(t) >= 6:
+		for _, f := range t[2:5] {
+			if strings.Contains(f, ",") {
+				cnt("input-mesh-default-export-list-of-two")
+			}
+		}
+	}
+}
+
 // visPrefix: the visibility clauses are also evaluated inside the scope stream; there they carry a prefix
 // (fingerprint scope:vis-<clause>), in the vis stream they stand alone (vis:<clause>).
 func visPrefix(stream string) string {
@@ -290,6 +335,7 @@ func oracleWorld(stream, in, out string) {
 			var routerNs []string
 			// the case is replayed in order: declarations, build, queries, incremental updates, queries ...
 			for _, t := range script {
+				countShapes(t)
 				switch {
 				case t[0] == "build":
 					w.build()
